@@ -140,3 +140,90 @@ def check_binary_chain(rules, e1: str, e2: str, const_names: Dict[str, str], op_
                             "expected": want, "got": got, "op": op_name})
                 break
     return bad
+
+
+# --------------------------------------------------------------------------- folding of string predicates over a witness
+class Unfoldable(Exception):
+    pass
+
+
+_STR_METHODS = {"startswith", "endswith", "isspace", "strip", "rstrip", "lstrip", "split", "lower", "upper", "isdigit", "isalpha", "isalnum",
+                "isupper", "islower", "replace", "find", "count", "splitlines", "partition", "rpartition", "title", "expandtabs"}
+
+
+def fold_str_expr(e: ast.AST, env: dict):
+    """value of an expression over string constants and the witness values in `env`: literals, the str methods that have no
+    side effect, len(), not/and/or, comparisons, constant subscripts and slices. Anything else raises Unfoldable. This is
+    constant folding of the source's own test on a fixed input, not an execution of the function it stands in."""
+    if isinstance(e, ast.Constant):
+        return e.value
+    if isinstance(e, ast.Name):
+        if e.id in env:
+            return env[e.id]
+        raise Unfoldable(e.id)
+    if isinstance(e, ast.Tuple):
+        return tuple(fold_str_expr(x, env) for x in e.elts)
+    if isinstance(e, ast.UnaryOp) and isinstance(e.op, ast.Not):
+        return not fold_str_expr(e.operand, env)
+    if isinstance(e, ast.BoolOp):
+        if isinstance(e.op, ast.And):
+            v = True
+            for x in e.values:
+                v = fold_str_expr(x, env)
+                if not v:
+                    return v
+            return v
+        v = False
+        for x in e.values:
+            v = fold_str_expr(x, env)
+            if v:
+                return v
+        return v
+    if isinstance(e, ast.Compare) and len(e.ops) == 1:
+        l, r = fold_str_expr(e.left, env), fold_str_expr(e.comparators[0], env)
+        op = e.ops[0]
+        try:
+            if isinstance(op, ast.Eq):
+                return l == r
+            if isinstance(op, ast.NotEq):
+                return l != r
+            if isinstance(op, ast.In):
+                return l in r
+            if isinstance(op, ast.NotIn):
+                return l not in r
+            if isinstance(op, ast.Lt):
+                return l < r
+            if isinstance(op, ast.LtE):
+                return l <= r
+            if isinstance(op, ast.Gt):
+                return l > r
+            if isinstance(op, ast.GtE):
+                return l >= r
+        except TypeError:
+            raise Unfoldable("comparison")
+        raise Unfoldable("comparison operator")
+    if isinstance(e, ast.Call):
+        if isinstance(e.func, ast.Name) and e.func.id == "len" and len(e.args) == 1 and not e.keywords:
+            return len(fold_str_expr(e.args[0], env))
+        if isinstance(e.func, ast.Attribute) and e.func.attr in _STR_METHODS and not e.keywords:
+            recv = fold_str_expr(e.func.value, env)
+            if not isinstance(recv, str):
+                raise Unfoldable("method on a non-string")
+            args = [fold_str_expr(a, env) for a in e.args]
+            return getattr(recv, e.func.attr)(*args)
+        raise Unfoldable(ast.unparse(e.func))
+    if isinstance(e, ast.Subscript):
+        v = fold_str_expr(e.value, env)
+        s = e.slice
+        if isinstance(s, ast.Slice):
+            lo = fold_str_expr(s.lower, env) if s.lower else None
+            hi = fold_str_expr(s.upper, env) if s.upper else None
+            st = fold_str_expr(s.step, env) if s.step else None
+            return v[lo:hi:st]
+        try:
+            return v[fold_str_expr(s, env)]
+        except (IndexError, KeyError, TypeError):
+            raise Unfoldable("subscript")
+    if isinstance(e, ast.BinOp) and isinstance(e.op, ast.Add):
+        return fold_str_expr(e.left, env) + fold_str_expr(e.right, env)
+    raise Unfoldable(type(e).__name__)
